@@ -18,7 +18,8 @@ VARIABLES sc, exp
 C(t, a) == [t |-> t, a |-> a]
 Calls == {C("dA", ""), C("dB", ""), C("eA", ""), C("eB", ""), C("cV", "one"), C("cV", "two"),
           C("sV", "one"), C("sV", "two"), C("mR", "l1"), C("mR", "l2"), C("fV", "s1"), C("fV", "s2"), C("dF", "one"), C("dF", "two"),
-          C("gT", ""), C("gU", ""), C("gS", ""), C("gR", "")}
+          C("gT", ""), C("gU", ""), C("gS", ""), C("gR", ""),
+          C("rQ", "one"), C("rQ", "")}
 
 Items(a) == CASE a = "l1" -> <<"1", "2">> [] a = "l2" -> <<"x">> [] a = "s1" -> <<"p", "q">> [] a = "s2" -> <<"r">> [] OTHER -> <<>>
 
@@ -34,10 +35,13 @@ Lines(c) ==
     [] c.t = "dF" -> <<"dF|work|" \o c.a, "dF|deferred|" \o c.a>>   \* a command and a deferred command printing the call variable
     [] c.t \in {"gT", "gU"} -> <<c.t \o "|g-" \o c.t>>   \* a Taskfile-level variable 'g-{{.TASK}}': per task, though defined once
     [] c.t \in {"gS", "gR"} -> <<c.t \o "|s-" \o c.t>>   \* a Taskfile-level sh: variable whose text mentions {{.TASK}}
+    [] c.t = "rQ" -> IF c.a = "" THEN <<"rQ|!missing-required">> ELSE <<"rQ|" \o c.a>>   \* requires: {vars: [R]}: checked for THIS call
     [] c.t = "fV" -> [i \in 1..Len(Items(c.a)) |-> "fV|" \o Items(c.a)[i]]   \* for: {var: S}
 
-Prefixes == {<<>>} \cup {<<c>> : c \in Calls}
-            \cup (IF MaxPrefix >= 2 THEN {<<c1, c2>> : c1 \in Calls, c2 \in Calls} ELSE {})
+\* a call that ends in an error would end the whole invocation: it only appears as the target
+PCalls == Calls \ {C("rQ", "")}
+Prefixes == {<<>>} \cup {<<c>> : c \in PCalls}
+            \cup (IF MaxPrefix >= 2 THEN {<<c1, c2>> : c1 \in PCalls, c2 \in PCalls} ELSE {})
 Scenarios == [target : Calls, prefix : Prefixes, mode : {"seq", "par"}]
 
 Init == sc \in {s \in Scenarios : \A k \in 1..Len(s.prefix) : s.prefix[k] # s.target} /\ exp = Lines(sc.target)
